@@ -45,9 +45,9 @@ CHECKS = {
    text="gcd/lcm/egcd/crt at signed and unsigned types with symbolic operands within magnitude bounds: non-negativity, divisibility, greatest via a Bezout pair from the real egcd, lcm*gcd=|ab|, a*x+b*y=c exactly and None iff gcd does not divide c, CRT solution in [0,lcm) satisfying both congruences and None iff incompatible.",
    note="Trusted: Kani/CBMC/CaDiCaL. Magnitudes <= 31/15, moduli <= 12 (quick); full i8/u8 in thorough."),
  "C12": dict(engine="kani", design="DESIGN.md#c12",
-   technique="bounded symbolic model checking of the compiled code (Kani/CBMC + CaDiCaL): arbitrary words, symbolic operation and observer indices",
-   text="For N in {1,2,3} words with arbitrary contents: point operations, binary operators and assigning forms, complement, count, equality, constructors observed at a symbolic index; the iterator's first three yields on arbitrary words and whole runs for popcount <= 4.",
-   note="Trusted: Kani/CBMC/CaDiCaL. N > 3 and the 0/1 string rendering are outside."),
+   technique="bounded symbolic model checking of the compiled code (Kani/CBMC + CaDiCaL): arbitrary words, symbolic operation and observer indices; the 0/1 rendering by symbolic execution of the MIR of Display/Debug (mirsym + z3) with symbolic words",
+   text="For N in {1,2,3} words with arbitrary contents: point operations, binary operators and assigning forms, complement, count, equality, constructors observed at a symbolic index; the iterator's first three yields on arbitrary words and whole runs for popcount <= 4. Display and Debug: fmt, its closure and Bitset::test run on the MIR; the text has 64N characters and character i is '1' exactly when i is a member, for all word contents.",
+   note="Trusted: Kani/CBMC/CaDiCaL; for the rendering: the MIR dump and the models of Range::map, collect, to_string, join, the format-argument plumbing (template decoding) and write_fmt. N > 3 (rendering: N > 4) is outside."),
  "C13": dict(engine="mirsym", design="DESIGN.md#c13",
    technique="symbolic execution of the MIR of rlib_sieve with the limit enumerated and the query arguments symbolic (z3)",
    text="For every limit N <= 64 (quick) / 300 (thorough) Sieve::new(N) is executed on its MIR; then for symbolic n (and d) the solver decides that the table entry is the least prime factor, primality flags agree, and factorize(n) yields increasing primes whose powers multiply to n, for every n <= N at once; the prime list is compared with trial division.",
@@ -66,11 +66,11 @@ CHECKS = {
    note="Trusted: Kani/CBMC/CaDiCaL. Detects broken heap maintenance and degenerate priority sources, not insufficient randomness."),
  "C17": dict(engine="mirsym", design="DESIGN.md#c17",
    technique="schedule exploration on the MIR (two interpreter threads, fork at every access to process-wide memory) with a symbolic generator state; z3 for the outcome verdict",
-   text="mirsym runs two interpreter threads over the MIR of TreapNode::new -> gen_priority -> next_raw and explores every sequentially consistent interleaving of their accesses to process-wide memory: no reachable point where both threads' next accesses conflict unsynchronised (data race), and for every initial generator state the priorities obtained equal those of some sequential order of the calls. A self-test on the recorded racy MIR must find both defects. Violations are confirmed with Miri.",
-   note="Trusted: MIR dump; the thread_local!/Cell model; sequential consistency. Mutex/atomics are not modelled (inconclusive). 2 threads x <= 2 creations."),
+   text="mirsym runs two interpreter threads over the MIR of TreapNode::new -> gen_priority -> next_raw and explores every sequentially consistent interleaving of their accesses to process-wide memory: no reachable point where both threads' next accesses conflict unsynchronised (data race), and for every initial generator state the priorities obtained equal those of some sequential order of the calls. A self-test on the recorded racy MIR must find both defects. Self-tests on five recorded MIR fixtures (racy static mut, split Mutex section, atomic lost update must be reported; single Mutex section, CAS retry loop must pass) run first. A data race is confirmed with Miri, an outcome violation without a memory-level race with a native 4-thread stress run.",
+   note="Trusted: MIR dump; the thread_local!/Cell, RefCell, Mutex and scalar-atomic models; sequential consistency. Other synchronisation (RwLock, Condvar, arrays of atomics) is inconclusive. 2 threads x <= 2 creations."),
  "C18": dict(engine="x87sym", design="DESIGN.md#c18",
-   technique="symbolic interpretation of the x87 asm! templates (parsed from the source) over SMT-LIB FloatingPoint(15,64) with z3; all pairs of f64 bit patterns",
-   text="x87sym parses every asm! template and the Rust glue of rlib_f80 from the current source, interprets them on a symbolic register stack and proves, for all pairs of f64 bit patterns, that each arithmetic operator equals the correctly rounded IEEE result on the widened operands (operand order, signed zeros), conversions are exact/correctly rounded, and <, <=, >, >=, partial_cmp, ==, !=, min, max, abs follow the IEEE order.",
+   technique="symbolic execution of the MIR of rlib_f80 (mirsym) with every asm! terminator interpreted instruction by instruction over SMT-LIB FloatingPoint(15,64) (x87sym), z3; all pairs of f64 bit patterns, and all f80 values for comparisons/abs/neg/min/max/narrowing",
+   text="The Rust glue of rlib_f80 is executed on the dumped MIR and each asm! template (after macro expansion) on a symbolic x87 register stack; proved, for all pairs of f64 bit patterns, that each arithmetic operator equals the correctly rounded IEEE result on the widened operands (operand order, signed zeros), conversions are exact/correctly rounded, and <, <=, >, >=, partial_cmp, ==, !=, min, max, abs follow the IEEE order.",
    note="Trusted: the instruction-semantics table (about 20 x87 instructions); z3's FloatingPoint theory (validated per run against the real FPU on a boundary set); default x87 control word."),
  "C19": dict(engine="kani", design="DESIGN.md#c19",
    technique="bounded symbolic model checking of the compiled code (Kani/CBMC + CaDiCaL): symbolic shapes, indices and elements",
